@@ -654,21 +654,6 @@ fn judge_cli(c: &CliCase, cls: &mut Classifier) -> Verdict {
 
 // ================================================================= layer 2: corpus replay
 
-fn corpus_cases(dir: &std::path::Path) -> Vec<LibCase> {
-    let mut out = vec![];
-    for (target, entry) in [("mnemonic", "mnemonic"), ("path", "path"), ("signature", "signature"), ("transaction", "transaction"), ("typeddata", "typeddata")] {
-        let d = dir.join("corpus").join(target);
-        let mut files: Vec<_> = std::fs::read_dir(&d).map(|r| r.filter_map(|e| e.ok().map(|e| e.path())).collect()).unwrap_or_default();
-        files.sort();
-        for f in files {
-            if let Ok(b) = std::fs::read(&f) {
-                out.push(LibCase { entry: entry.to_string(), input_hex: hex_lower(&b), origin: "corpus".into() });
-            }
-        }
-    }
-    out
-}
-
 pub fn run(ctx: &mut Ctx) {
     ctx.rule = "layer 1: every library entry point (mnemonic parse/print/seed, Mnemonic::random, path parse + derive, Path::for_index, PrivateKey::new, signature parse/print, digest parse, transaction parse + digest + encode with both parities, typed-data parse, message digest) under catch_unwind on valid inputs (the other properties' generators, word counts 0..40, Unicode white space, type strings with up to 64 array suffixes, JSON nesting up to 128), mutated-valid inputs (byte/token insert-delete-replace-duplicate, number-boundary substitution, invalid UTF-8) and random bytes; layer 2: replay of the committed libFuzzer corpora (campaigns in thorough); layer 3: generated argv/env/stdin for every subcommand and option (indices around 2^31/2^32/2^64, -n 0..40, -j 0..64, vanity prefixes of <= 3 digits in any case and non-hex text, non-UTF-8 arguments, garbage files and stdin). Oracle: result or ordinary error: no panic in-process; exit status 0, 2 or 255 without 'panicked at' on stderr and a message on error for the CLI; watchdog expiry is inconclusive. Non-trivial: all; distinct by (entry point, input).".into();
     ctx.assumptions = vec!["Signature::v is exercised through transaction JSON only; Signature::from_parts (documented to panic on invalid parts) is not called with invalid parts".into()];
@@ -676,13 +661,6 @@ pub fn run(ctx: &mut Ctx) {
     ctx.replay_known_and_regressions(&replay);
     let t = ctx.tier;
     ctx.run_prop("library", t.pick(100_000, 5_000_000), || crate::gen::tape(1600).prop_map(gen_lib), judge_lib);
-    if let Some(fd) = ctx.fuzz_dir.clone() {
-        let cc = corpus_cases(&fd);
-        if !cc.is_empty() {
-            ctx.run_cases("corpus", &cc, judge_lib);
-        }
-        ctx.extra.insert("fuzz_corpus_files_replayed".into(), json!(cc.len()));
-    }
     if CLI.get().map(|p| p.exists()).unwrap_or(false) {
         ctx.shrink_iters = 150;
         ctx.run_prop("cli", t.pick(1500, 20_000), || crate::gen::tape(1200).prop_map(gen_cli), judge_cli);
@@ -696,6 +674,7 @@ pub fn run(ctx: &mut Ctx) {
     } else {
         ctx.inconclusive("CLI executable not available");
     }
+    crate::fuzz::run_for(ctx);
     if ctx.cls.count("timed-out") > 0 {
         ctx.inconclusive(format!("{} CLI runs hit the 60 s watchdog (see evidence samples)", ctx.cls.count("timed-out")));
     }
